@@ -422,7 +422,13 @@ Reopen ==
     /\ handle = "closed"
     /\ handle' = "open"
     /\ kv' = disk.kv /\ root' = disk.kv /\ seqn' = disk.seqn
-    /\ memLog' = disk.log /\ segLog' = disk.log /\ pendTrunc' = 0
+    \* Records of the meta range beyond the user's entitlement (the one-sync pruning lag) may or may
+    \* not still be readable: their segment file can already have been unlinked.  The specification
+    \* therefore only promises the entitled suffix.
+    /\ \E keep \in Min(avail, Len(disk.log))..Len(disk.log) :
+          /\ memLog' = TakeLast(disk.log, keep)
+          /\ segLog' = TakeLast(disk.log, keep)
+    /\ pendTrunc' = 0
     /\ poisoned' = FALSE
     /\ avail' = Min(avail, Len(disk.log))
     /\ UNCHANGED <<ovl, marker, sess, fin, disk>>
